@@ -191,6 +191,8 @@ def pick_frame(t, rng, side, ident, ci=0, sizes=None, to_client=None):
     if rng.random() < 0.3:
         size = rng.randint(32, 1134)
     style = rng.choice(["random", "random", "text", "zeros"])
+    if size > 3000:
+        style = rng.choice(["text", "zeros", "zeros", "random"])
     if side == "srv":
         src, dst = t.server_tun_ip, t.tun_ips[ci]
     else:
